@@ -125,6 +125,8 @@ EXEC += ["open(file='x', unit=10, status='old')", "open(status='old', file=fn, u
 EXEC += ["call obj%arr(i + 1, 2)%method(a)", "call tab(k + 1, 2)%run()", "x = tab(k + 1, 2)%f(a, b)", "read(unit=u(i + 1, 2), fmt=*) a", "write(unit=lun(1, k), fmt=fm(2, 3)) a",
          "print fmts(i + 1, 2), a", "open(unit=u(1, 2), file=names(i, j))", "if (m(i + 1, 2) > 0) call s(q(1, 2))", "where (msk(:, k + 1)) v(:, k + 1) = 0", "forall (i = lo(1, 2):hi(1, 2)) a(i) = 0",
          "allocate(w(n(1, 2)), stat=st(1, 2))", "deallocate(w, stat=st(1, 2))", "nullify(pt(i + 1, 2)%p)", "pt(i + 1, 2)%p => tg(1:n(1, 2))", "goto (10, 20) sel(i + 1, 2)", "stop"]
+SPEC += ["type :: cl\ncharacter :: name*20\ncharacter :: code*4 = 'none'\ncharacter :: tags(3)*8\ncharacter :: both(2)*(n + 1) = 'x'\nreal :: r1, r2(3), r3 = 1.0\ntype(cl), pointer :: nx => null(), pv(:)\nend type cl",
+         "character :: w1*20, w2(3)*8, w3*(n + 1) = 'x', w4*(*)", "character*8 :: x1, x2*4, x3(2)*2"]
 IFACE = ["procedure f", "module procedure f", "module procedure f, g", "procedure :: f", "procedure :: f, g", "module procedure :: f", "subroutine s(a)\ninteger a\nend subroutine s",
          "function f(x)\nreal x\nend function f"]
 FORMATS = ["a // a", "i3, /, /, a", "a, :, :, i2", "2/, a", "i2, 3x, /, /, /", "1x, i5", "i5", "f10.3", "a", "3(i2, 1x)", "'text'", "e12.4", "2i5", "a, /, a", "i5.3, es12.4", "l1, g10.3", "tr2, tl1, t10"]
